@@ -575,9 +575,44 @@ func c04Wire(c *core.Ctx) {
 	okM := len(m) == 2 && m[0] == "map[uint8]event/crdt.Durable" && m[1] == "map[uint8]event/crdt.Volatile"
 	okU := len(u) == 1 && u[0] == "map[uint8]event/crdt.Volatile"
 	c.Check(okM && okU, rule, "State.Encode/DecodeState:container types", enc.Pos(), "both sides use map[uint8]<set> with identical set wire layout", fmt.Sprintf("Encode marshals %v, DecodeState unmarshals %v", m, u))
-	ne := len(eng.Calls(enc, false, "github.com/golang/snappy.Encode"))
-	nd := len(eng.Calls(dec, false, "github.com/golang/snappy.Decode"))
-	c.Check(ne == 2 && nd == 1, rule, "State.Encode/DecodeState:compression", enc.Pos(), "every encoded state is snappy-compressed and DecodeState decompresses first", fmt.Sprintf("snappy.Encode calls in Encode: %d (want 2), snappy.Decode calls in DecodeState: %d (want 1)", ne, nd))
+	// every path of Encode passes snappy.Encode applied to a Marshal result, and every Marshal
+	// result is compressed; DecodeState decompresses before it unmarshals
+	isSnappy := func(i ssa.Instruction) bool { return eng.IsCallTo(i, "github.com/golang/snappy.Encode") }
+	allPaths, _ := eng.MustPass(enc, nil, isSnappy)
+	marshalled := map[ssa.Value]bool{}
+	for _, call := range eng.Calls(enc, false, "github.com/kelindar/binary.Marshal") {
+		marshalled[extractOf(call.Value(), 0)] = false
+	}
+	okSrc := true
+	ne := 0
+	for _, call := range eng.Calls(enc, false, "github.com/golang/snappy.Encode") {
+		ne++
+		var visit func(v ssa.Value, d int)
+		visit = func(v ssa.Value, d int) {
+			if phi, ok := v.(*ssa.Phi); ok && d < 4 {
+				for _, e := range phi.Edges {
+					visit(e, d+1)
+				}
+				return
+			}
+			if c, isC := v.(*ssa.Const); isC && c.Value == nil && d > 0 {
+				return // the zero value of the variable before assignment
+			}
+			if _, ok := marshalled[v]; ok {
+				marshalled[v] = true
+			} else {
+				okSrc = false
+			}
+		}
+		visit(eng.CallArgs(call.Common())[1], 0)
+	}
+	for _, used := range marshalled {
+		okSrc = okSrc && used
+	}
+	decs := eng.Calls(dec, false, "github.com/golang/snappy.Decode")
+	uns := eng.Calls(dec, false, "github.com/kelindar/binary.Unmarshal")
+	okDec := len(decs) == 1 && len(uns) == 1 && eng.Dominates(decs[0].(ssa.Instruction), uns[0].(ssa.Instruction)) && eng.StripConv(eng.CallArgs(uns[0].Common())[0]) == extractOf(decs[0].Value(), 0)
+	c.Check(allPaths && okSrc && ne > 0 && okDec, rule, "State.Encode/DecodeState:compression", enc.Pos(), "every encoded state is snappy-compressed and DecodeState decompresses first", fmt.Sprintf("Encode: every path through snappy.Encode=%v, snappy.Encode applied exactly to the Marshal results=%v (%d calls); DecodeState unmarshals the snappy.Decode result=%v", allPaths, okSrc, ne, okDec))
 }
 
 // c04R8: replicated event keys are written and read at the same offsets, and events are
@@ -593,39 +628,8 @@ func c04R8(c *core.Ctx, rule string) {
 			if !ok {
 				continue
 			}
-			lo, isLo := eng.ConstInt(sl.Low)
-			hi, isHi := eng.ConstInt(sl.High)
-			if sl.Low == nil {
-				lo, isLo = 0, true
-			}
-			if isLo && isHi {
-				out[fmt.Sprintf("%d:%d", lo, hi)] = true
-				continue
-			}
-			// loop word
-			var phis []ssa.Value
-			eng.Instrs(f, func(in ssa.Instruction) {
-				if p, ok := in.(*ssa.Phi); ok {
-					phis = append(phis, p)
-					// rotated range loops use phi+1 as the index
-					if refs := p.Referrers(); refs != nil {
-						for _, r := range *refs {
-							if bo, ok := r.(*ssa.BinOp); ok && bo.Op == token.ADD {
-								if k, ok := eng.ConstInt(bo.Y); ok && k == 1 {
-									phis = append(phis, bo)
-								}
-							}
-						}
-					}
-				}
-			})
-			for _, iv := range phis {
-				la, lb, ok1 := affine(sl.Low, iv, 0)
-				ha, hb, ok2 := affine(sl.High, iv, 0)
-				if ok1 && ok2 && la != 0 {
-					out[fmt.Sprintf("%di+%d:%di+%d", la, lb, ha, hb)] = true
-					break
-				}
+			if b, _, ok := sliceBounds(f, sl); ok {
+				out[b] = true
 			}
 		}
 		return out
